@@ -406,4 +406,394 @@ theorem inv_mutex {S : Sys} {c : Config} (h : Reachable S c) :
         · subst e; rw [hself]; exact ih2 t'
         · rw [inside_other rfl e]; exact ih2 t'
 
+/-! ## guarded programs -/
+
+theorem guardedFrom_load {g : Nat → Nat} {hs : List Nat} {ops : List Op}
+    (h : guardedFrom g hs ops = true) {i k : Nat} (hi : ops[i]? = some (.load k)) :
+    g k ∈ heldFrom hs (ops.take i) ∧ ops[i + 1]? = some (.store k) := by
+  fun_induction guardedFrom g hs ops generalizing i with
+  | case1 hs => simp at hi
+  | case2 hs k0 k' rest ih =>
+    simp only [Bool.and_eq_true, beq_iff_eq, List.contains_iff_mem] at h
+    obtain ⟨⟨hk, hm⟩, hr⟩ := h
+    subst hk
+    match i with
+    | 0 =>
+      simp at hi; subst hi
+      simp [heldFrom, hm]
+    | 1 => simp at hi
+    | i + 2 =>
+      simp only [List.getElem?_cons_succ] at hi
+      have := ih hr hi
+      simpa [heldFrom] using this
+  | case3 hs k0 rest hne => simp at h
+  | case4 hs k0 rest => simp at h
+  | case5 hs m rest ih =>
+    match i with
+    | 0 => simp at hi
+    | i + 1 =>
+      simp only [List.getElem?_cons_succ] at hi
+      have := ih h hi
+      simpa [heldFrom] using this
+  | case6 hs m rest ih =>
+    match i with
+    | 0 => simp at hi
+    | i + 1 =>
+      simp only [List.getElem?_cons_succ] at hi
+      have := ih h hi
+      simpa [heldFrom] using this
+  | case7 hs ch v rest ih =>
+    match i with
+    | 0 => simp at hi
+    | i + 1 =>
+      simp only [List.getElem?_cons_succ] at hi
+      have := ih h hi
+      simpa [heldFrom] using this
+  | case8 hs ch rest ih =>
+    match i with
+    | 0 => simp at hi
+    | i + 1 =>
+      simp only [List.getElem?_cons_succ] at hi
+      have := ih h hi
+      simpa [heldFrom] using this
+
+theorem guarded_prog {S : Sys} {g : Nat → Nat} (hg : S.guarded g = true) (t : Nat) :
+    guardedFrom g [] (S.prog t) = true := by
+  unfold Sys.prog
+  split
+  · rename_i p hp
+    unfold Sys.guarded at hg
+    rw [List.all_eq_true] at hg
+    exact hg p (List.mem_of_getElem? hp)
+  · rfl
+
+/-- a thread about to load counter `k` of a guarded system holds `g k` and stores next -/
+theorem guarded_cur_load {S : Sys} {g : Nat → Nat} (hg : S.guarded g = true) {c : Config} {t k : Nat}
+    (hc : S.cur c t = some (.load k)) :
+    g k ∈ inside S c t ∧ (S.prog t)[c.pc t + 1]? = some (.store k) :=
+  guardedFrom_load (guarded_prog hg t) hc
+
+/-! ## invariant: guarded counters -/
+
+/-- 1 when thread `t` has read counter `k` and not yet written it back -/
+def pend (c : Config) (k t : Nat) : Nat :=
+  match c.reg t with
+  | some (k', _) => if k' = k then 1 else 0
+  | none => 0
+
+/-- number of threads in the middle of an increment of `k` -/
+def pending (S : Sys) (c : Config) (k : Nat) : Nat := sumTo S.progs.length (pend c k)
+
+theorem loadLog_append (k : Nat) (a b : List Event) :
+    loadLog k (a ++ b) = loadLog k a ++ loadLog k b := by
+  simp [loadLog, List.filterMap_append]
+
+theorem loadLog_single (k : Nat) (e : Event) :
+    loadLog k [e] = match e with
+      | .loaded _ k' v => if k' = k then [v] else []
+      | _ => [] := by
+  cases e <;> simp [loadLog]
+  split <;> simp_all
+
+theorem doneIncr_step {S : Sys} {c c' : Config} {t : Nat} {op : Op} (k : Nat)
+    (hpc : c'.pc = upd c.pc t (c.pc t + 1)) (hc : S.cur c t = some op) :
+    doneIncr S c' k = doneIncr S c k + (if op = .store k then 1 else 0) := by
+  unfold doneIncr
+  have ht := cur_lt hc
+  have hf : sumTo S.progs.length (fun t' => stores k ((S.prog t').take (c'.pc t'))) =
+      sumTo S.progs.length (upd (fun t' => stores k ((S.prog t').take (c.pc t'))) t
+        (stores k ((S.prog t).take (c.pc t)) + (if op = .store k then 1 else 0))) := by
+    apply sumTo_congr
+    intro t' _
+    by_cases e : t' = t
+    · subst e
+      rw [upd_same, hpc, upd_same, take_succ_of_cur hc, stores_append]
+      congr 1
+      unfold stores
+      by_cases e2 : op = .store k
+      · simp [e2]
+      · simp [e2]
+    · rw [upd_other _ _ e, hpc, upd_other _ _ e]
+  rw [hf]
+  have := sumTo_upd (fun t' => stores k ((S.prog t').take (c.pc t'))) (t := t)
+    (stores k ((S.prog t).take (c.pc t)) + (if op = .store k then 1 else 0)) ht
+  omega
+
+theorem pending_upd_reg {S : Sys} {c c' : Config} {t : Nat} (k : Nat) (ht : t < S.progs.length)
+    (hreg : ∀ t', t' ≠ t → c'.reg t' = c.reg t') :
+    pending S c' k + pend c k t = pending S c k + pend c' k t := by
+  unfold pending
+  have hf : sumTo S.progs.length (pend c' k) = sumTo S.progs.length (upd (pend c k) t (pend c' k t)) := by
+    apply sumTo_congr
+    intro t' _
+    by_cases e : t' = t
+    · subst e; rw [upd_same]
+    · rw [upd_other _ _ e]; unfold pend; rw [hreg t' e]
+  rw [hf]
+  exact sumTo_upd (pend c k) (pend c' k t) ht
+
+theorem pending_same_reg {S : Sys} {c c' : Config} (k : Nat) (hreg : c'.reg = c.reg) :
+    pending S c' k = pending S c k := by
+  unfold pending
+  apply sumTo_congr
+  intro t' _
+  unfold pend; rw [hreg]
+
+/-- For a guarded system: (J) a thread between load and store holds the guard, is about to store
+    and its register is current; (K) the counter equals the number of completed increments;
+    (L) the values read so far are 0, 1, 2, … and their number is counter + pending. -/
+theorem inv_counter {S : Sys} {g : Nat → Nat} (hg : S.guarded g = true) {c : Config}
+    (h : Reachable S c) :
+    (∀ t k v, c.reg t = some (k, v) →
+        v = c.value k ∧ S.cur c t = some (.store k) ∧ g k ∈ inside S c t) ∧
+    (∀ k, c.value k = doneIncr S c k) ∧
+    (∀ k, loadLog k c.trace = List.range (loadLog k c.trace).length ∧
+        (loadLog k c.trace).length = c.value k + pending S c k) := by
+  induction h with
+  | init =>
+    refine ⟨?_, ?_, ?_⟩
+    · intro t k v h; simp [init] at h
+    · intro k
+      simp only [init, doneIncr]
+      exact (sumTo_zero (fun t _ => by simp [stores])).symm
+    · intro k
+      have : pending S init k = 0 := sumTo_zero (fun t _ => by simp [pend, init])
+      refine ⟨by simp [init, loadLog], ?_⟩
+      rw [this]; simp [init, loadLog]
+  | @step c c' t hr hs ih =>
+    obtain ⟨ihJ, ihK, ihL⟩ := ih
+    obtain ⟨hm1, hm2⟩ := inv_mutex hr
+    -- a thread that executes anything but a store has an empty register
+    have regNone : ∀ op, S.cur c t = some op → (∀ k, op ≠ .store k) → c.reg t = none := by
+      intro op hc hne
+      cases hreg : c.reg t with
+      | none => rfl
+      | some kv =>
+        obtain ⟨k, v⟩ := kv
+        have := (ihJ t k v hreg).2.1
+        rw [hc] at this
+        exact absurd (Option.some.inj this) (hne k)
+    -- steps that touch neither registers nor counters
+    have plain : ∀ (c'' : Config) (op : Op) (e : Event), S.cur c t = some op →
+        (∀ k, op ≠ .store k) → (∀ k, op ≠ .load k) → (∀ t' k v, e ≠ .loaded t' k v) →
+        c''.pc = upd c.pc t (c.pc t + 1) → c''.reg = c.reg → c''.value = c.value →
+        c''.trace = c.trace ++ [e] → (∀ t', inside S c'' t' = inside S c t') →
+        (∀ t k v, c''.reg t = some (k, v) →
+            v = c''.value k ∧ S.cur c'' t = some (.store k) ∧ g k ∈ inside S c'' t) ∧
+        (∀ k, c''.value k = doneIncr S c'' k) ∧
+        (∀ k, loadLog k c''.trace = List.range (loadLog k c''.trace).length ∧
+            (loadLog k c''.trace).length = c''.value k + pending S c'' k) := by
+      intro c'' op e hc hns hnl hne hpc hreg hval htr hin
+      have hrn := regNone op hc hns
+      refine ⟨?_, ?_, ?_⟩
+      · intro t' k v hr'
+        rw [hreg] at hr'
+        have ne : t' ≠ t := by
+          intro e'; subst e'; rw [hrn] at hr'; cases hr'
+        obtain ⟨h1, h2, h3⟩ := ihJ t' k v hr'
+        refine ⟨by rw [hval]; exact h1, ?_, by rw [hin]; exact h3⟩
+        unfold Sys.cur at h2 ⊢
+        rw [hpc, upd_other _ _ ne]; exact h2
+      · intro k
+        rw [doneIncr_step k hpc hc, hval, ihK k]
+        simp [hns k]
+      · intro k
+        have hl : loadLog k c''.trace = loadLog k c.trace := by
+          rw [htr, loadLog_append, loadLog_single]
+          cases e <;> simp
+          rename_i t' k' v'
+          exact absurd rfl (hne t' k' v')
+        rw [hl, hval, pending_same_reg k hreg]
+        exact ihL k
+    rcases step_cases hs with ⟨ch', v, hc, hp, rfl⟩ | ⟨ch', it, rest, hc, hq, rfl⟩ | ⟨m, hc, ho, rfl⟩ |
+      ⟨m, hc, ho, rfl⟩ | ⟨k0, hc, rfl⟩ | ⟨k0, v0, hc, hr0, rfl⟩
+    -- push
+    · refine plain _ _ _ hc (by simp) (by simp) (by simp) rfl rfl rfl rfl ?_
+      intro t'
+      by_cases e : t' = t
+      · subst e; rw [inside_self rfl hc]; rfl
+      · exact inside_other rfl e
+    -- pop
+    · refine plain _ _ _ hc (by simp) (by simp) (by simp) rfl rfl rfl rfl ?_
+      intro t'
+      by_cases e : t' = t
+      · subst e; rw [inside_self rfl hc]; rfl
+      · exact inside_other rfl e
+    -- lock: `inside` changes for t, but t has an empty register
+    · have hrn := regNone _ hc (by simp)
+      refine ⟨?_, ?_, ?_⟩
+      · intro t' k v hr'
+        simp only [advance] at hr'
+        have ne : t' ≠ t := by
+          intro e'; subst e'; rw [hrn] at hr'; cases hr'
+        obtain ⟨h1, h2, h3⟩ := ihJ t' k v hr'
+        refine ⟨h1, ?_, by rw [inside_other rfl ne]; exact h3⟩
+        unfold Sys.cur at h2 ⊢
+        simp only [advance]
+        rw [upd_other _ _ ne]; exact h2
+      · intro k
+        rw [doneIncr_step k rfl hc]
+        simp only [advance]
+        rw [ihK k]; simp
+      · intro k
+        simp only [advance, loadLog_append, loadLog_single, List.append_nil]
+        have : pending S (advance { c with owner := upd c.owner m (some t) } t (.locked t m)) k
+            = pending S c k := pending_same_reg k rfl
+        simp only [advance] at this
+        rw [this]; exact ihL k
+    -- unlock
+    · have hrn := regNone _ hc (by simp)
+      refine ⟨?_, ?_, ?_⟩
+      · intro t' k v hr'
+        simp only [advance] at hr'
+        have ne : t' ≠ t := by
+          intro e'; subst e'; rw [hrn] at hr'; cases hr'
+        obtain ⟨h1, h2, h3⟩ := ihJ t' k v hr'
+        refine ⟨h1, ?_, by rw [inside_other rfl ne]; exact h3⟩
+        unfold Sys.cur at h2 ⊢
+        simp only [advance]
+        rw [upd_other _ _ ne]; exact h2
+      · intro k
+        rw [doneIncr_step k rfl hc]
+        simp only [advance]
+        rw [ihK k]; simp
+      · intro k
+        simp only [advance, loadLog_append, loadLog_single, List.append_nil]
+        have : pending S (advance { c with owner := upd c.owner m none } t (.unlocked t m)) k
+            = pending S c k := pending_same_reg k rfl
+        simp only [advance] at this
+        rw [this]; exact ihL k
+    -- load k0
+    · have hrn := regNone _ hc (by simp)
+      obtain ⟨hheld, hnext⟩ := guarded_cur_load hg hc
+      have ht := cur_lt hc
+      -- nobody is in the middle of an increment of k0
+      have hnopend : pending S c k0 = 0 := by
+        apply sumTo_zero
+        intro t' _
+        unfold pend
+        cases hreg : c.reg t' with
+        | none => rfl
+        | some kv =>
+          obtain ⟨k', v'⟩ := kv
+          by_cases e : k' = k0
+          · subst e
+            have h3 := (ihJ t' k' v' hreg).2.2
+            have o1 := (hm1 (g k') t').mpr h3
+            have o2 := (hm1 (g k') t).mpr hheld
+            rw [o1] at o2
+            have : t' = t := Option.some.inj o2
+            subst this
+            rw [hrn] at hreg; cases hreg
+          · simp [e]
+      have hin : ∀ t', inside S (advance { c with reg := upd c.reg t (some (k0, c.value k0)) } t
+          (.loaded t k0 (c.value k0))) t' = inside S c t' := by
+        intro t'
+        by_cases e : t' = t
+        · subst e; rw [inside_self rfl hc]; rfl
+        · exact inside_other rfl e
+      refine ⟨?_, ?_, ?_⟩
+      · intro t' k v hr'
+        by_cases e : t' = t
+        · subst e
+          simp only [advance, upd_same, Option.some.injEq, Prod.mk.injEq] at hr'
+          obtain ⟨rfl, rfl⟩ := hr'
+          refine ⟨rfl, ?_, by rw [hin]; exact hheld⟩
+          unfold Sys.cur
+          simp only [advance, upd_same]
+          exact hnext
+        · simp only [advance] at hr'
+          rw [upd_other _ _ e] at hr'
+          obtain ⟨h1, h2, h3⟩ := ihJ t' k v hr'
+          refine ⟨h1, ?_, by rw [hin]; exact h3⟩
+          unfold Sys.cur at h2 ⊢
+          simp only [advance]
+          rw [upd_other _ _ e]; exact h2
+      · intro k
+        rw [doneIncr_step k rfl hc]
+        simp only [advance]
+        rw [ihK k]; simp
+      · intro k
+        have hpe := pending_upd_reg (S := S) (c := c)
+          (c' := advance { c with reg := upd c.reg t (some (k0, c.value k0)) } t (.loaded t k0 (c.value k0)))
+          k ht (fun t' ne => by simp only [advance]; exact upd_other _ _ ne)
+        have hp0 : pend c k t = 0 := by unfold pend; rw [hrn]
+        rw [hp0] at hpe
+        obtain ⟨hl1, hl2⟩ := ihL k
+        by_cases e : k0 = k
+        · subst e
+          have hp1 : pend (advance { c with reg := upd c.reg t (some (k0, c.value k0)) } t
+              (.loaded t k0 (c.value k0))) k0 t = 1 := by
+            unfold pend; simp [advance]
+          rw [hp1, hnopend] at hpe
+          rw [hnopend] at hl2
+          simp only [advance, loadLog_append, loadLog_single, if_true, List.length_append,
+            List.length_singleton] at hpe ⊢
+          refine ⟨?_, by omega⟩
+          rw [List.range_succ, ← hl1, hl2]; simp
+        · have hp1 : pend (advance { c with reg := upd c.reg t (some (k0, c.value k0)) } t
+              (.loaded t k0 (c.value k0))) k t = 0 := by
+            unfold pend; simp [advance, e]
+          rw [hp1] at hpe
+          simp only [advance, loadLog_append, loadLog_single, if_neg e, List.append_nil] at hpe ⊢
+          exact ⟨hl1, by omega⟩
+    -- store k0
+    · obtain ⟨hv, _, hheld⟩ := ihJ t k0 v0 hr0
+      subst hv
+      have ht := cur_lt hc
+      have hin : ∀ t', inside S (advance { c with value := upd c.value k0 (c.value k0 + 1), reg := upd c.reg t none } t
+          (.stored t k0 (c.value k0 + 1))) t' = inside S c t' := by
+        intro t'
+        by_cases e : t' = t
+        · subst e; rw [inside_self rfl hc]; rfl
+        · exact inside_other rfl e
+      refine ⟨?_, ?_, ?_⟩
+      · intro t' k v hr'
+        by_cases e : t' = t
+        · subst e
+          simp [advance] at hr'
+        · simp only [advance] at hr'
+          rw [upd_other _ _ e] at hr'
+          obtain ⟨h1, h2, h3⟩ := ihJ t' k v hr'
+          have hk : k ≠ k0 := by
+            intro ek; subst ek
+            have o1 := (hm1 (g k) t').mpr h3
+            have o2 := (hm1 (g k) t).mpr hheld
+            rw [o1] at o2
+            exact e (Option.some.inj o2)
+          refine ⟨?_, ?_, by rw [hin]; exact h3⟩
+          · simp only [advance]; rw [upd_other _ _ hk]; exact h1
+          · unfold Sys.cur at h2 ⊢
+            simp only [advance]
+            rw [upd_other _ _ e]; exact h2
+      · intro k
+        rw [doneIncr_step k rfl hc]
+        simp only [advance]
+        by_cases e : k = k0
+        · subst e; rw [upd_same, ihK k]; simp
+        · rw [upd_other _ _ e, ihK k]
+          have : Op.store k0 ≠ Op.store k := by
+            intro h; injection h with h; exact e h.symm
+          simp [this]
+      · intro k
+        have hpe := pending_upd_reg (S := S) (c := c)
+          (c' := advance { c with value := upd c.value k0 (c.value k0 + 1), reg := upd c.reg t none } t (.stored t k0 (c.value k0 + 1)))
+          k ht (fun t' ne => by simp only [advance]; exact upd_other _ _ ne)
+        have hp1 : pend (advance { c with value := upd c.value k0 (c.value k0 + 1), reg := upd c.reg t none } t
+            (.stored t k0 (c.value k0 + 1))) k t = 0 := by
+          unfold pend; simp [advance]
+        rw [hp1] at hpe
+        obtain ⟨hl1, hl2⟩ := ihL k
+        simp only [advance, loadLog_append, loadLog_single, List.append_nil] at hpe ⊢
+        refine ⟨hl1, ?_⟩
+        by_cases e : k = k0
+        · subst e
+          have hp0 : pend c k t = 1 := by unfold pend; rw [hr0]; simp
+          rw [hp0] at hpe
+          rw [upd_same]; omega
+        · have hp0 : pend c k t = 0 := by
+            unfold pend; rw [hr0]; simp [Ne.symm e]
+          rw [hp0] at hpe
+          rw [upd_other _ _ e]; omega
+
 end SlipVerif.Conc
